@@ -18,6 +18,7 @@ import (
 
 	"verifharness/internal/ev"
 	"verifharness/internal/gen"
+	"verifharness/internal/mpcl"
 	"verifharness/internal/xport"
 )
 
@@ -29,6 +30,10 @@ type Case struct {
 	// of a compiled MPCL program.
 	Circ    *gen.Circ `json:"circ,omitempty"`
 	Prog    string    `json:"prog,omitempty"`
+	// Gen is a generated two-party MPCL program (compiled with the default
+	// parameters); the oracle is still the gate-level evaluation of the
+	// compiled circuit.
+	Gen *mpcl.Prog `json:"gen,omitempty"`
 	X       string    `json:"x"` // garbler input bits, LSB first
 	Y       string    `json:"y"` // evaluator input bits
 	OT      string    `json:"ot"`
@@ -135,7 +140,13 @@ func genCase(t *rapid.T) Case {
 	var cs Case
 	kind := rapid.IntRange(0, 4).Draw(t, "source")
 	var nx, ny int
-	if kind == 0 {
+	if kind == 0 && rapid.Bool().Draw(t, "generated") {
+		o := mpcl.Opts{NumParams: 2, MaxStmts: 5, MaxDepth: 2, Helpers: 1, Arrays: true,
+			Loops: true, ScalarParams: true, MaxWidth: 24}
+		cs.Gen = mpcl.Draw(t, o)
+		main := cs.Gen.Main()
+		nx, ny = cs.Gen.Bits(main.Params[0].T), cs.Gen.Bits(main.Params[1].T)
+	} else if kind == 0 {
 		cs.Prog = rapid.SampledFrom(progNames).Draw(t, "prog")
 		c, err := compiled(cs.Prog)
 		if err != nil {
@@ -225,6 +236,11 @@ func run(cs Case) ev.Outcome {
 	var err error
 	if cs.Circ != nil {
 		circ = cs.Circ.Build()
+	} else if cs.Gen != nil {
+		circ, _, err = compiler.New(utils.NewParams()).Compile(cs.Gen.Source(), nil)
+		if err != nil {
+			return ev.Outcome{Skip: "generated program does not compile (C03's domain): " + err.Error()}
+		}
 	} else {
 		circ, err = compiled(cs.Prog)
 		if err != nil {
@@ -313,7 +329,9 @@ func run(cs Case) ev.Outcome {
 	}
 
 	classes := []string{"ot=" + kind}
-	if cs.Prog != "" {
+	if cs.Gen != nil {
+		classes = append(classes, "compiled", "generated-program")
+	} else if cs.Prog != "" {
 		classes = append(classes, "compiled")
 	} else {
 		classes = append(classes, "hand-made")
